@@ -30,6 +30,7 @@ class Rig:
         self.loop = None
         self.live = {}             # step -> number of bodies currently executing
         self.counters = {}         # (step, uid, retry) -> nth execution (collect re-runs, waiter replays)
+        self.wid_of = None         # callable(step, event) -> worker slot of the invocation holding this event object, or -1
 
     def make_gate(self, key):
         f = self.loop.create_future()
@@ -111,13 +112,19 @@ def _mk_body(sname, scfg, rig: Rig):
         rig.counters[base] = nth + 1
         key = (sname, uid, retry, nth)
         rig.live[sname] = rig.live.get(sname, 0) + 1
+        wid = -1
+        if rig.wid_of is not None:
+            try:
+                wid = int(rig.wid_of(sname, ev))
+            except Exception:  # noqa: BLE001
+                wid = -1
         sf = {"step": "", "attempts": -1, "elapsed_ms": -1, "exc": ""}
         if ty == "Failed":
             sf = {"step": ev.step_name, "attempts": int(ev.attempts), "elapsed_ms": int(round(ev.elapsed_seconds * 1000)),
                   "exc": type(ev.exception).__name__}
         rig.log({"e": "step_start", "step": sname, "uid": uid, "ty": ty, "retry": retry, "nth": nth, "sf": sf,
                  "sf_input": E.uid_of(ev.input_event) if ty == "Failed" else "",
-                 "live": rig.live[sname], "depth": uid.count("F("),
+                 "live": rig.live[sname], "depth": uid.count("F("), "wid": wid,
                  "ri_elapsed_ms": int(round(ri.elapsed_seconds * 1000)),
                  "ri_last_exc": type(ri.last_exception).__name__ if ri.last_exception is not None else "none"})
         how = "?"
@@ -222,7 +229,7 @@ def _mk_body(sname, scfg, rig: Rig):
             raise
         finally:
             rig.live[sname] -= 1
-            rig.log({"e": "step_end", "step": sname, "uid": uid, "retry": retry, "nth": nth, "how": how})
+            rig.log({"e": "step_end", "step": sname, "uid": uid, "retry": retry, "nth": nth, "how": how, "wid": wid})
 
     return body
 
